@@ -256,6 +256,51 @@ def is_dup_rows_assert(e):
     return in_lib and isinstance(e, AssertionError) and sig.endswith("symbolic_mpo.py:_construct_symbolic_mpo")
 
 
+def cancelling_bond_operator(mpo, rel=1e-10):
+    """(bond, index) of a bond operator of the symbolic MPO whose two-site expansion (through the previous bond, grouped by
+    (operator two bonds to the left, symbol on site 1, symbol on site 2)) cancels identically - the precondition of FC17a;
+    None if there is none.  Own expansion, not the library's."""
+    try:
+        lists = mpo.symbolic_out_ops_list
+        for b in range(2, len(lists)):
+            o2, o3 = lists[b - 1], lists[b]
+            sums = []
+            for lst in o3:
+                g = {}
+                for op in lst:
+                    for op1 in o2[op.symbol[0]]:
+                        key = (op1.symbol[0], op1.symbol[1], op.symbol[1])
+                        g[key] = g.get(key, 0.0) + op1.factor * op.factor
+                sums.append(max(abs(v) for v in g.values()) if g else 0.0)
+            top = max(sums) if sums else 0.0
+            for j, v in enumerate(sums):
+                if v <= rel * top:
+                    return b, j
+    except Exception:  # noqa
+        return None
+    return None
+
+
+def classify_swap_assert(e, case, mpo, kind):
+    """signature of the two known ways try_swap_site dies with an AssertionError (None = something else).
+    FC17a: an MPO built with the QR algorithm has bond operators that are linear combinations; a graph-algorithm swap treats
+           them as opaque symbols and can leave a bond operator whose expansion cancels identically; the next swap to its left
+           drops the all-zero rows and trips `assert [] not in new_out_ops3` (default build = qr, default swap = Hopcroft-Karp,
+           i.e. exactly what the OFS drivers use).
+    FC17b: see qn_width_defect."""
+    import traceback
+
+    if not isinstance(e, AssertionError):
+        return None
+    last = traceback.extract_tb(e.__traceback__)[-1]
+    # call site (not message text): an assertion of swap_site itself, with the precondition verified by the harness
+    if last.filename.endswith("symbolic_mpo.py") and last.name == "swap_site" and cancelling_bond_operator(mpo) is not None:
+        return f"fc17a.{kind}.empty_bond_operator"
+    if case.get("swap_jw") and is_dup_rows_assert(e) and qn_width_defect(mpo):
+        return f"fc17b.{kind}.duplicate_primary_ops"
+    return None
+
+
 def f12_zone(case):
     return case.get("symbols") == "short" and bool(case.get("swap_jw"))
 
@@ -439,7 +484,11 @@ def cases(draw, tier):
         c.update(M=BIG if lossless else draw(st.sampled_from([2, 3, 4, 6])), lossless=lossless,
                  hdt=draw(st.sampled_from([1e-6, 0.03, 0.1, 0.2, 0.3])), nstep=draw(st.integers(1, 3)),
                  cplx=draw(st.booleans()), solver=draw(st.sampled_from(["krylov", "krylov", "RK45"])),
-                 dm=(not jw) and draw(st.integers(0, 4)) == 0)
+                 dm=(not jw) and draw(st.integers(0, 2)) == 0)
+        if c["dm"]:
+            c["hdt"] = 1e-6
+            if c["ofs"] != "ofs_d":
+                c.update(lossless=True, M=BIG)
     return c
 
 
@@ -470,18 +519,20 @@ class C17(Prop):
 
     known_matchers = {
         "F12": lambda spec, sig, msg: sig.startswith("f12.") and spec.get("symbols") == "short" and bool(spec.get("swap_jw")),
-        "F12b": lambda spec, sig, msg: sig.startswith("f12b.") and sig.endswith("duplicate_primary_ops") and bool(spec.get("swap_jw"))
+        "FC17a": lambda spec, sig, msg: sig.startswith("fc17a.") and sig.endswith("empty_bond_operator")
+        and (spec.get("kind") in ("gs", "evo") or (spec.get("algo") == "qr" and spec.get("swap_algo") in ("Hopcroft-Karp", "Hungarian"))),
+        "FC17b": lambda spec, sig, msg: sig.startswith("fc17b.") and sig.endswith("duplicate_primary_ops") and bool(spec.get("swap_jw"))
         and bool(spec.get("conserve_qn", spec.get("sys", {}).get("conserve_qn"))),
     }
 
     def budget(self, tier):
-        return dict(examples=3200, shards=16) if tier == "quick" else dict(examples=60000, shards=16)
+        return dict(examples=2400, shards=16) if tier == "quick" else dict(examples=40000, shards=16)
 
     def strategy(self, tier):
         return cases(tier)
 
     def finite_cases(self, tier):
-        return [{"kind": "h6", "symbols": "short", "swap_jw": False}] if tier == "thorough" else []
+        return [{"kind": "h6", "symbols": "short", "swap_jw": False}]
 
     # ---------------------------------------------------------------------------------------------
     def run_case(self, case):
@@ -582,10 +633,11 @@ class C17(Prop):
                     # C01's known finding F15: the library's own self-check is stricter than the QR cut; nothing was modified
                     r.rejected = "check_swap_consistency refused a QR swap (C01/F15)"
                     return
-                if jw and is_dup_rows_assert(e) and qn_width_defect(mpo):
-                    r.fail("f12b.swap.duplicate_primary_ops",
-                           f"JW-aware swap created operators with a 1-component qn in a {mpo.model.qn_size}-component model; a later swap "
-                           f"finds duplicate table rows: {e!r} at swap {k} (position {pos}, swaps {case['swaps']})")
+                known = classify_swap_assert(e, case, mpo, "swap")
+                if known:
+                    r.fail(known, f"try_swap_site died at swap {k} (position {pos}) of {case['swaps']} (build {case['algo']}, swap "
+                                  f"{case['swap_algo']}, swap_jw={jw}, symbols={case['symbols']}, qn_size={mpo.model.qn_size}): {e!r}")
+                    r.classes.append(known.split(".")[0])
                     return
                 raise
             want_p = op_forward(H0, transform(dims, order, False))
@@ -685,8 +737,10 @@ class C17(Prop):
         try:
             energies, res = optimize_mps(mps, mpo)
         except AssertionError as e:
-            if case["swap_jw"] and is_dup_rows_assert(e) and qn_width_defect(mpo):
-                r.fail("f12b.gs.duplicate_primary_ops", f"optimize_mps with ofs_swap_jw died after swaps {log}: duplicate table rows ({e!r})")
+            known = classify_swap_assert(e, case, mpo, "gs")
+            if known:
+                r.fail(known, f"optimize_mps with OFS ({case['ofs']}, swap_jw={case['swap_jw']}) died in try_swap_site after swaps {log}: {e!r}")
+                r.classes.append(known.split(".")[0])
                 return
             raise
         nsw = len(log)
@@ -763,7 +817,6 @@ class C17(Prop):
         use_dm = bool(case["dm"]) and sysm.D <= 32
         if use_dm:
             mps = MpDm.from_mps(mps)
-            r.classes.append("evo.mpdm")
         psi0 = chain.dense_of(mps)
         nrm = float(np.linalg.norm(psi0))
         dt = case["hdt"]
@@ -787,13 +840,17 @@ class C17(Prop):
         try:
             outs = run(True, mpo)
         except AssertionError as e:
-            if case["swap_jw"] and is_dup_rows_assert(e) and qn_width_defect(mpo):
-                r.fail("f12b.evo.duplicate_primary_ops", f"evolve with ofs_swap_jw died after swaps {log}: duplicate table rows ({e!r})")
+            known = classify_swap_assert(e, case, mpo, "evo")
+            if known:
+                r.fail(known, f"evolve(tdvp_ps2) with OFS ({case['ofs']}, swap_jw={case['swap_jw']}) died in try_swap_site after swaps {log}: {e!r}")
+                r.classes.append(known.split(".")[0])
                 return
             raise
         new = outs[-1]
         nsw = len(log)
         r.classes.append("evo.swapped" if nsw else "evo.no_swap")
+        if use_dm:
+            r.classes.append(("evo.mpdm.swapped" if nsw else "evo.mpdm.no_swap") + (".lossless" if case["lossless"] else ".truncating"))
         if nsw:
             r.classes.append(f"evo.swapped.{case['ofs']}.{sysm.typ}")
         r.nontrivial = nsw > 0
@@ -826,8 +883,14 @@ class C17(Prop):
         # for more than two sites (constant <= 0.05 measured in C09, allowance 0.5); the initial state has full bonds
         # (otherwise the two-site projection error O(dt) of long-range terms dominates and depends on the site order)
         sv = case["solver"]
-        tol_solver = (2e-7 if sv == "krylov" else 2e-6) * sysm.n * nstep * nrm * max(1.0, t)
+        # local solver: krylov observed <= 1e-13 (allowance 1e-6 per site and step); IVP solvers at ivp_rtol=1e-9 as calibrated in C09
+        tol_solver = (1e-6 * sysm.n if sv == "krylov" else 3e-4) * nstep * nrm * max(1.0, t)
         split = 0.0 if sysm.n <= 2 else 0.5 * nstep * dt ** 3 * nrm
+        if use_dm:
+            # MpDm.from_mps has the bonds of the pure state: the projected dynamics is not the exact one.  Rigorous bound instead:
+            # every sub-step moves the state by at most ||H|| dt/2 and a step has 2(2n-3) of them; dm runs use dt = 1e-6 so
+            # that the bound is sharp enough to see a wrong leg permutation (O(1)).
+            split = 2.0 * sysm.n * t * nrm
         what = f"(dt={dt}, steps={nstep}, sites={sysm.n}, order {order_st}, jw={sysm.fermi}, swaps {log}, dm={use_dm}, {sv})"
         r.check_close(f"evo.reference_vs_exact.{sv}", ref, exact, tol_solver + split, "run without OFS vs exact propagator " + what)
         r.check_close(pre + f"evo.ofs_vs_exact.{sv}", got, exact, tol_solver + split, "OFS run (un-permuted) vs exact propagator " + what)
